@@ -52,3 +52,40 @@ pub fn source_config(min: u8, initial: u8, max: u8) -> SourceConfig {
         initial_poll_interval: PollInterval::from_byte(initial),
     }
 }
+
+/// An NTS source as it would be built from a key-exchange result: `n_cookies` opaque cookies of
+/// `cookie_len` bytes, random AES-SIV-CMAC-512 keys, and the protocol version the key exchange
+/// negotiated. (Wraps the `pub(crate)` constructor and the `pub(crate)` fields of `SourceNtsData`.)
+pub fn new_nts_source<C: SourceController>(
+    source_addr: SocketAddr,
+    source_config: SourceConfig,
+    negotiated: ProtocolVersion,
+    controller: C,
+    n_cookies: usize,
+    cookie_len: usize,
+) -> (NtpSource<C>, NtpSourceActionIterator) {
+    let mut cookies = crate::cookiestash::CookieStash::default();
+    for i in 0..n_cookies {
+        cookies.store(vec![i as u8 ^ 0x5a; cookie_len]);
+    }
+    let nts = crate::source::SourceNtsData {
+        cookies,
+        c2s: Box::new(crate::packet::AesSivCmac512::new_random()),
+        s2c: Box::new(crate::packet::AesSivCmac512::new_random()),
+    };
+    let info = NtpSourceInfo {
+        ip_list: Vec::<IpAddr>::new().into(),
+        server_id: Default::default(),
+        local_stratum: 16,
+    };
+    NtpSource::new(
+        source_addr,
+        source_config,
+        negotiated,
+        controller,
+        Some(Box::new(nts)),
+        ClockId::new(),
+        Arc::new(RwLock::new(info)),
+        Arc::new(Mutex::new(HashMap::new())),
+    )
+}
